@@ -593,6 +593,36 @@ def gen_X_cases(rng, big):
                     cases.append((kind, "X %s %s %s %d %d %d | %s | %s | %s | %s" % (tag, ao, bo, n, m, off, fl(a), fl(b), fl([c]), fl([b1]))))
     return cases
 
+def gen_Y_cases(rng, big):
+    """accumulating forms: noalias(X) += / -= solve(A,B,tag,side), X0 + solve(...), += inv(A) % B / B % inv(A), matrix and vector
+    right-hand sides, both sides: the value added must be the solution the plain assignment gives"""
+    cases = []
+    reps = 1 if not big else 5
+    for tag in TAGS:
+        for ao in "rc":
+            for bo in "rc":
+                for _ in range(reps):
+                    n = rng.choice([1, 2, 3, 4, 5, 7, 9] + ([17, 24, 33] if big or rng.random() < 0.15 else []))
+                    m = rng.choice([1, 2, 3, 4, n])          # m = n: square right-hand side (a wrong SIDE then still has a fitting shape)
+                    if tag in EXACT_TAGS or tag == "indef":
+                        a = gen_spd_exact(rng, n) if tag == "spd" else (gen_lu_exact(rng, n) if tag == "indef" else gen_tri_exact(rng, n, tag))
+                        t = a if tag in ("spd", "indef") else tri_of(tag, a)
+                        b = mmul(t, [[rint(rng, -3, 3) for _ in range(m)] for _ in range(n)])
+                        cm = mmul([[rint(rng, -3, 3) for _ in range(n)] for _ in range(m)], t)
+                        x0 = [[rint(rng, -4, 4) for _ in range(m)] for _ in range(n)]; y0 = [[rint(rng, -4, 4) for _ in range(n)] for _ in range(m)]
+                        # one vector that is solvable exactly from the left: b1 = t x; from the right the result is compared at 1e-9
+                        b1 = [r[0] for r in mmul(t, [[rint(rng, -3, 3)] for _ in range(n)])]
+                        v0 = [rint(rng, -4, 4) for _ in range(n)]
+                        kind = "accx"
+                    else:
+                        a = gen_float(rng, n, "spd", 100.0)
+                        b = [[rng.uniform(-1, 1) for _ in range(m)] for _ in range(n)]; cm = [[rng.uniform(-1, 1) for _ in range(n)] for _ in range(m)]
+                        x0 = [[rng.uniform(-2, 2) for _ in range(m)] for _ in range(n)]; y0 = [[rng.uniform(-2, 2) for _ in range(n)] for _ in range(m)]
+                        b1 = [rng.uniform(-1, 1) for _ in range(n)]; v0 = [rng.uniform(-2, 2) for _ in range(n)]
+                        kind = "accf"
+                    cases.append((kind, "Y %s %s %s %d %d | %s | %s | %s | %s | %s | %s | %s" % (tag, ao, bo, n, m, fl(a), fl(b), fl(cm), fl(x0), fl(y0), fl([b1]), fl([v0]))))
+    return cases
+
 def gen_cases(rng, tier):
     big = tier == "thorough"
     small = list(range(1, 13))
@@ -700,6 +730,7 @@ def gen_cases(rng, tier):
     cases += gen_J_cases(rng, big)
     cases += gen_E_cases(rng, big)
     cases += gen_X_cases(rng, big)
+    cases += gen_Y_cases(rng, big)
     return cases
 def symm(a): return [[(a[i][j] + a[j][i]) / 2 for j in range(len(a))] for i in range(len(a))]
 
@@ -765,6 +796,44 @@ def monitor(kind, line, o):
         if tag != "cg":
             e = resid_ok(t, [[v] for v in y1], bc, True, n, kind == "chainx")
             if e: return ["prod(solve(A,B,left),c): A y = B c violated: " + e]
+        return []
+    if cmd == "Y":
+        tag, n, m = h[1], int(h[4]), int(h[5])
+        if og is None: return ["solve reported an error (%s) on a system of the documented kind" % o]
+        if len(og) != 18: return ["Y: %d result groups, expected 18" % len(og)]
+        a = mat(n, n, [num(t) for t in g[1]]); t = a if tag not in TAGS[:4] else tri_of(tag, a)
+        b = mat(n, m, [num(v) for v in g[2]]); cm = mat(m, n, [num(v) for v in g[3]])
+        x0 = [num(v) for v in g[4]]; y0 = [num(v) for v in g[5]]; b1 = [num(v) for v in g[6]]; v0 = [num(v) for v in g[7]]
+        scale = max([abs(v) for grp in og for v in grp] + [1])
+        cgt = tag == "cg"
+        tol = Fr(0) if (kind == "accx" and not cgt) else Fr(1e-9) * scale * (10 ** 3 if cgt else 1)
+        def chk(idx, ref, start, sign, what):
+            want = [s + sign * r for s, r in zip(start, og[ref])]
+            return near([og[idx]], [want], tol if not (kind == "accx" and ref == 15) else max(tol, Fr(1e-9) * scale), what)
+        checks = [(1, 0, x0, 1, "noalias(X) += solve(A,B,left) differs from X0 + (solve(A,B,left) evaluated)"),
+                  (2, 0, x0, 1, "noalias(X) += inv(A) % B differs from X0 + (solve(A,B,left) evaluated)"),
+                  (3, 0, x0, 1, "X = X0 + solve(A,B,left) differs from X0 + (solve(A,B,left) evaluated)"),
+                  (4, 0, x0, -1, "noalias(X) -= solve(A,B,left) differs from X0 - (solve(A,B,left) evaluated)"),
+                  (5, 0, x0, 1, "X += solve(A,B,left) differs from X0 + (solve(A,B,left) evaluated)"),
+                  (7, 6, y0, 1, "noalias(Y) += solve(A,C,right) differs from Y0 + (solve(A,C,right) evaluated)"),
+                  (8, 6, y0, 1, "noalias(Y) += C % inv(A) differs from Y0 + (solve(A,C,right) evaluated)"),
+                  (9, 6, y0, 1, "Y = Y0 + solve(A,C,right) differs from Y0 + (solve(A,C,right) evaluated)"),
+                  (10, 6, y0, -1, "noalias(Y) -= solve(A,C,right) differs from Y0 - (solve(A,C,right) evaluated)"),
+                  (11, 6, y0, 1, "Y += solve(A,C,right) differs from Y0 + (solve(A,C,right) evaluated)"),
+                  (13, 12, v0, 1, "noalias(v) += solve(A,b,left) differs from v0 + (solve(A,b,left) evaluated)"),
+                  (14, 12, v0, -1, "noalias(v) -= inv(A) % b differs from v0 - (solve(A,b,left) evaluated)"),
+                  (16, 15, v0, 1, "noalias(v) += solve(A,b,right) differs from v0 + (solve(A,b,right) evaluated)"),
+                  (17, 15, v0, -1, "v0 - b % inv(A) differs from v0 - (solve(A,b,right) evaluated)")]
+        for idx, ref, start, sign, what in checks:
+            if len(og[idx]) != len(start): return ["%s: result has %d entries, expected %d" % (what.split(" differs")[0], len(og[idx]), len(start))]
+            e = chk(idx, ref, start, sign, what)
+            if e: return [e]
+        # defining equations of the two references
+        if not cgt:
+            e = resid_ok(t, mat(n, m, og[0]), b, True, n, kind == "accx")
+            if e: return ["solve(A,B,left): " + e]
+            e = resid_ok(t, mat(m, n, og[6]), cm, False, n, kind == "accx")
+            if e: return ["solve(A,C,right): " + e]
         return []
     if cmd == "S":
         tag, side, ao, rhs, bo, n, m = h[1], h[2], h[3], h[4], h[5], int(h[6]), int(h[7])
@@ -1055,7 +1124,7 @@ def main():
               "" if not (nviol or ndis) else "%d monitor failures, %d disagreements" % (nviol, ndis))
     ck.cov["evaluations"] = len(cases) * len(builds)
     def size_of(l):
-        h = l.split("|")[0].split(); return int(h[{"S": 6, "I": 4, "Z": 3, "K": 3, "X": 4}.get(h[0], 2)])
+        h = l.split("|")[0].split(); return int(h[{"S": 6, "I": 4, "Z": 3, "K": 3, "X": 4, "Y": 4}.get(h[0], 2)])
     ck.cov["distinct_nontrivial"] = len(set(l for k, l in cases if size_of(l) >= 2))
     ck.cov["rule"] = ("solve(A,b,tag,side) for 8 tags x left/right x row/column-major A x vector / row-major / column-major matrix right-hand side, sizes 1..12 "
                       "(plus sizes around the blocking threshold 32; up to 40 in thorough), exact stream (integer factors, power-of-two/unit diagonals: equality with the Q model and zero residual), "
